@@ -51,7 +51,10 @@ def run(chk):
     rng = random.Random(chk.seed + 12)
     salt = (chk.seed + 12) % 10007
     all4 = p['meshes4'] is None
-    ids4 = list(range(1, ru.BASE ** 6)) if all4 else [i for i in ru.stratified_meshes(4, p['meshes4'], rng) if i != 0]
+    if all4:       # every mesh without parallel links, plus a seeded sample of those with one doubled pair of sites
+        ids4 = list(range(1, ru.BASE ** 6)) + [i for i in ru.stratified_meshes(4, 8000, rng) if i >= ru.BASE ** 6]
+    else:
+        ids4 = [i for i in ru.stratified_meshes(4, p['meshes4'], rng) if i != 0]
     t0 = time.time()
     consts = dict(OneSrcDst=True, Thin=0, LinePer=0, TwinPer=0, PairPer=p['pairs'], TriplePer=p['triples'],
                   OverlapPer=p['overlaps'], Salt=salt)
@@ -110,9 +113,10 @@ def run(chk):
         chk.add_mc(n2, r2)
         timing['waited_for_exhaustive_b1'] = round(time.time() - t1, 1)
     chk.cov['timing_s'] = timing
-    chk.assume('generated meshes: 4 (thorough also 5) ROADM sites, at least one link, no parallel links (the code '
-               'documents that reversed paths are not exact with parallel links), fibre pairs of 50/140/300 km or 0 km '
-               'amplifier-only patches')
+    chk.assume('generated meshes: 4 (thorough also 5) ROADM sites, at least one link, fibre pairs of 50/140/300 km or 0 km '
+               'amplifier-only patches; at most one pair of sites joined by two parallel link pairs - the code documents '
+               'that reversed paths are not exact there, so two arcs of opposite direction between such sites are '
+               'neither required to be disjoint nor counted as a disjoint solution (same direction: judged)')
     chk.assume('candidate routes have far fewer than 80 elements (the documented search cut-off of all_simple_paths)')
     chk.assume('completeness (an error only when no link-disjoint combination honours the route constraints) is judged '
                'for a single pair only; for a triple / overlapping pairs only what is returned is judged')
@@ -228,6 +232,38 @@ def _mut_error_swallowed():
     rq.compute_path_dsjctn = f
 
 
-MUTANTS = {'one_direction': _mut_one_direction, 'positional_comparison': _mut_positional,
-           'prune_long': _mut_prune_long, 'strict_ignored_in_groups': _mut_strict_ignored_in_groups,
-           'error_swallowed': _mut_error_swallowed}
+def _patch_source(name, old, new):
+    """re-define one function of gnpy.topology.request from its own source with a textual change"""
+    import inspect
+    import textwrap
+    import gnpy.topology.request as rq
+    src = textwrap.dedent(inspect.getsource(getattr(rq, name)))
+    if old not in src:
+        raise RuntimeError(f'mutant: {old!r} not found in {name}')
+    exec(compile(src.replace(old, new), f'<mutant {name}>', 'exec'), rq.__dict__)
+
+
+def _mut_nested_group_lost():
+    """deduplicate_disjunctions treats a group nested in another one as a repetition and drops the larger"""
+    _patch_source('deduplicate_disjunctions',
+                  'if set(elem.disjunctions_req) == set(dis_elem.disjunctions_req) and',
+                  'if set(elem.disjunctions_req) <= set(dis_elem.disjunctions_req) and')
+
+
+def _mut_stale_hop_index():
+    """correct_json_route_list pops the hop type at the loop index although earlier hops were already removed"""
+    _patch_source('correct_json_route_list', 'pathreq.loose_list.pop(pathreq.nodes_list.index(n_id))',
+                  'pathreq.loose_list.pop(i)')
+
+
+def _mut_roadm_sequence_identity():
+    """candidate routes are compared by their ROADM sequence only: parallel links look alike"""
+    _patch_source('compute_path_dsjctn', 'if isinstance(e, Roadm) | (isinstance(pth[i], Roadm))]',
+                  'if isinstance(e, Roadm)]')
+
+
+# six are run by `verif selftest`; the two others (both killed when tried) are kept for manual experiments
+MUTANTS = {'nested_group_lost': _mut_nested_group_lost, 'stale_hop_index': _mut_stale_hop_index,
+           'roadm_sequence_identity': _mut_roadm_sequence_identity, 'one_direction': _mut_one_direction,
+           'prune_long': _mut_prune_long, 'strict_ignored_in_groups': _mut_strict_ignored_in_groups}
+EXTRA_MUTANTS = {'positional_comparison': _mut_positional, 'error_swallowed': _mut_error_swallowed}
